@@ -141,7 +141,7 @@ def toStored (K : Ctx) (L : Lattice) : List Stored :=
 /-- stable insertion sort of positions by key (ties keep their order: `list.sort`) -/
 def insertStable (key : Nat → Nat) (x : Nat) : List Nat → List Nat
   | [] => [x]
-  | y :: ys => if key x < key y then x :: y :: ys else y :: insertStable key x ys
+  | y :: ys => if key x ≤ key y then x :: y :: ys else y :: insertStable key x ys
 def sortStable (key : Nat → Nat) (l : List Nat) : List Nat := l.foldr (insertStable key) []
 
 /-- `_init` + `_annotate` applied to concepts given as (extent, intent, upper idx, lower idx) in
